@@ -242,6 +242,24 @@ Definition j_it (step : Z) (args : list val) (out : val) : verdict :=
       end
   | _ => JSkip
   end.
+(** [nth(n)] is the (n+1)-th item, the iterator then continues behind it; once it has returned
+    [None] the sequence has ended for good *)
+Definition j_nth (step : Z) (args : list val) (out : val) : verdict :=
+  match args with
+  | [d; VInt n; dir; cap] =>
+      match dn_of_date d, dir_of dir, small_of cap with
+      | Some s, Some fwd, Some cap =>
+          if (0 <=? n) && (n <=? 18446744073709551615) then
+            let avail := it_avail step s fwd in
+            let k := if n <? avail then n + 1 else avail in
+            let r := it_remaining step s k fwd in
+            judge_eq (VTup [it_item step s n fwd; it_item step s k fwd;
+                            if r <=? cap then VSome (VInt r) else VNone]) out
+          else JSkip
+      | _, _, _ => JSkip
+      end
+  | _ => JSkip
+  end.
 Definition j_hint (step : Z) (args : list val) (out : val) : verdict :=
   match args with
   | [d; k; dir] =>
@@ -290,6 +308,8 @@ Definition judge (op : bytes) (args : list val) (out : val) : verdict :=
   else if op_is op "ar.zaddstd" then j_z_std args out
   else if op_is op "it.days" then j_it 1 args out
   else if op_is op "it.weeks" then j_it 7 args out
+  else if op_is op "it.dnth" then j_nth 1 args out
+  else if op_is op "it.wnth" then j_nth 7 args out
   else if op_is op "it.dhint" then j_hint 1 args out
   else if op_is op "it.whint" then j_hint 7 args out
   else JSkip.
